@@ -65,21 +65,50 @@ def goIndex {α} (xs : List α) (i : Int) : Option α :=
   if (if i < 0 then (xs.length : Int) + i else i) < 0 ∨ (if i < 0 then (xs.length : Int) + i else i) ≥ xs.length
   then none else xs[(if i < 0 then (xs.length : Int) + i else i).toNat]?
 
+/-- what an OPTIONAL iterator may do on a value it cannot iterate (C12 does not say): fail, "no value", or the empty list -/
+inductive IterOut where
+  | err | none | empty
+  deriving DecidableEq, Repr
+
+/-- the points C12 leaves open and the code decides (`Lat.code` = what the code does today; every C12 theorem is proved for
+every value of this structure, and the comparison with the implementation accepts every reading):
+* `slice`: an optional slice on a value that cannot be sliced is "no value" (`true`) or an error (`false`, today);
+* `iterNull`: an optional iterator on null / on "no value" (today: the empty list);
+* `iterScalar`: an optional iterator on any other value that is neither a list nor a map (today: an error). -/
+structure Lat where
+  slice : Bool := false
+  iterNull : IterOut := .empty
+  iterScalar : IterOut := .err
+  deriving DecidableEq, Repr
+
+def Lat.code : Lat := {}
+
 /-- what a failing segment does: error unless optional, in which case the walk goes on with "no value".
 `lenient` is the one point the property (C12) leaves open and the code decides: an OPTIONAL SLICE segment applied to a value
 that cannot be sliced. The code as it stands answers with an error (`lenient = false`, what `select` uses); answering with
 "no value", as for an optional field or index, is equally within C12 (`lenient = true`). Every C12 theorem holds for both. -/
-def resolve (lenient : Bool) : List Seg → Option Node → Except Err (Option Node)
+def resolve (lenient : Lat) : List Seg → Option Node → Except Err (Option Node)
   | [], cur => .ok cur
   | seg :: rest, cur =>
     if seg.identity then resolve lenient rest cur
     else if seg.iterator then
       match cur with
       | none | some .null =>
-        if seg.optional then resolve lenient rest (some (.list [])) else .error .resolution
+        if seg.optional then
+          (match lenient.iterNull with
+           | .err => .error .resolution
+           | .none => resolve lenient rest none
+           | .empty => resolve lenient rest (some (.list [])))
+        else .error .resolution
       | some (.list _) => resolve lenient rest cur
       | some (.map kvs) => resolve lenient rest (some (.list (Node.values kvs)))
-      | _ => .error .resolution
+      | _ =>
+        if seg.optional then
+          (match lenient.iterScalar with
+           | .err => .error .resolution
+           | .none => resolve lenient rest none
+           | .empty => resolve lenient rest (some (.list [])))
+        else .error .resolution
     else if seg.isField then
       match cur with
       | some (.map kvs) =>
@@ -101,7 +130,7 @@ def resolve (lenient : Bool) : List Seg → Option Node → Except Err (Option N
           let runes := Utf8.decode s
           let (a, b) := sliceIndices s0 s1 runes.length
           resolve lenient rest (some (.str (Utf8.encode (extract runes a b))))
-        | _ => if lenient && seg.optional then resolve lenient rest none else .error .resolution
+        | _ => if lenient.slice && seg.optional then resolve lenient rest none else .error .resolution
       | none => -- default: Index()
         match cur with
         | some (.list xs) =>
@@ -115,9 +144,9 @@ def resolve (lenient : Bool) : List Seg → Option Node → Except Err (Option N
         | _ => if seg.optional then resolve lenient rest none else .error .resolution
 
 /-- `Selector.Select(subject)` -/
-def select (sel : List Seg) (subject : Node) : Except Err (Option Node) := resolve false sel (some subject)
+def select (sel : List Seg) (subject : Node) : Except Err (Option Node) := resolve Lat.code sel (some subject)
 
 /-- `Select` under either reading of a failing optional slice -/
-def selectL (lenient : Bool) (sel : List Seg) (subject : Node) : Except Err (Option Node) := resolve lenient sel (some subject)
+def selectL (lenient : Lat) (sel : List Seg) (subject : Node) : Except Err (Option Node) := resolve lenient sel (some subject)
 
 end Ucan.Selector
